@@ -46,8 +46,8 @@ type Stats struct {
 
 // Disk is one simulated directory.
 type Disk struct {
-	Vol      map[string]*Inode
-	Dur      map[string]*Inode
+	Vol      dirMap
+	Dur      dirMap
 	Pending  []DirOp
 	nextIno  int
 	Prealloc bool
@@ -55,12 +55,70 @@ type Disk struct {
 }
 
 func New(prealloc bool) *Disk {
-	return &Disk{Vol: map[string]*Inode{}, Dur: map[string]*Inode{}, Prealloc: prealloc}
+	return &Disk{Prealloc: prealloc}
+}
+
+// dirMap is a directory: name -> inode, kept sorted by name. A slice, not a Go
+// map, because Go maps carry race-detector hooks inside the runtime and the
+// disk is touched (serially) by every task; directories hold a handful of
+// names.
+type dirMap []dirEnt
+
+type dirEnt struct {
+	name string
+	ino  *Inode
+}
+
+func (m dirMap) get(name string) *Inode {
+	for _, e := range m {
+		if e.name == name {
+			return e.ino
+		}
+	}
+	return nil
+}
+
+func (m *dirMap) set(name string, ino *Inode) {
+	for i, e := range *m {
+		if e.name == name {
+			(*m)[i].ino = ino
+			return
+		}
+	}
+	i := sort.Search(len(*m), func(i int) bool { return (*m)[i].name > name })
+	// element-wise moves: copy() of pointerful elements goes through
+	// runtime.typedslicecopy, which carries race-detector hooks
+	*m = append(*m, dirEnt{})
+	for j := len(*m) - 1; j > i; j-- {
+		(*m)[j] = (*m)[j-1]
+	}
+	(*m)[i] = dirEnt{name, ino}
+}
+
+func (m *dirMap) del(name string) {
+	for i, e := range *m {
+		if e.name == name {
+			for j := i; j+1 < len(*m); j++ {
+				(*m)[j] = (*m)[j+1]
+			}
+			(*m)[len(*m)-1] = dirEnt{}
+			*m = (*m)[:len(*m)-1]
+			return
+		}
+	}
+}
+
+func (m dirMap) names() []string {
+	out := make([]string, 0, len(m))
+	for _, e := range m {
+		out = append(out, e.name)
+	}
+	return out
 }
 
 // Create makes a new file; ok=false if the name exists.
 func (d *Disk) Create(name string, size uint64) (*Inode, bool) {
-	if _, ok := d.Vol[name]; ok {
+	if d.Vol.get(name) != nil {
 		return nil, false
 	}
 	d.nextIno++
@@ -68,20 +126,20 @@ func (d *Disk) Create(name string, size uint64) (*Inode, bool) {
 	if d.Prealloc && size > 0 {
 		ino.Vol = make([]byte, size)
 	}
-	d.Vol[name] = ino
+	d.Vol.set(name, ino)
 	d.Pending = append(d.Pending, DirOp{Create: true, Name: name, Ino: ino})
 	return ino, true
 }
 
-func (d *Disk) Lookup(name string) *Inode { return d.Vol[name] }
+func (d *Disk) Lookup(name string) *Inode { return d.Vol.get(name) }
 
 // Unlink removes the name from the volatile directory; ok=false if absent.
 func (d *Disk) Unlink(name string) bool {
-	ino, ok := d.Vol[name]
-	if !ok {
+	ino := d.Vol.get(name)
+	if ino == nil {
 		return false
 	}
-	delete(d.Vol, name)
+	d.Vol.del(name)
 	d.Pending = append(d.Pending, DirOp{Create: false, Name: name, Ino: ino})
 	return true
 }
@@ -90,9 +148,9 @@ func (d *Disk) Unlink(name string) bool {
 func (d *Disk) SyncDir() {
 	for _, op := range d.Pending {
 		if op.Create {
-			d.Dur[op.Name] = op.Ino
-		} else if d.Dur[op.Name] == op.Ino {
-			delete(d.Dur, op.Name)
+			d.Dur.set(op.Name, op.Ino)
+		} else if d.Dur.get(op.Name) == op.Ino {
+			d.Dur.del(op.Name)
 		}
 	}
 	d.Pending = d.Pending[:0]
@@ -100,12 +158,7 @@ func (d *Disk) SyncDir() {
 
 // List returns the sorted volatile directory listing.
 func (d *Disk) List() []string {
-	names := make([]string, 0, len(d.Vol))
-	for n := range d.Vol {
-		names = append(names, n)
-	}
-	sort.Strings(names)
-	return names
+	return d.Vol.names()
 }
 
 // WriteAt applies a write to the volatile image.
@@ -263,31 +316,28 @@ func (d *Disk) PowerLoss(tp Chooser, granule int64) {
 		}
 		d.Stats.DirOpsKept++
 		if op.Create {
-			d.Dur[op.Name] = op.Ino
-		} else if d.Dur[op.Name] == op.Ino {
-			delete(d.Dur, op.Name)
+			d.Dur.set(op.Name, op.Ino)
+		} else if d.Dur.get(op.Name) == op.Ino {
+			d.Dur.del(op.Name)
 		}
 	}
 	d.Pending = d.Pending[:0]
 
 	// files, in deterministic order
-	names := make([]string, 0, len(d.Dur))
-	for n := range d.Dur {
-		names = append(names, n)
-	}
-	sort.Strings(names)
-	seen := map[*Inode]bool{}
-	for _, n := range names {
-		ino := d.Dur[n]
-		if seen[ino] {
-			continue
+	var seen []*Inode
+next:
+	for _, e := range d.Dur {
+		for _, s := range seen {
+			if s == e.ino {
+				continue next
+			}
 		}
-		seen[ino] = true
-		d.tearFile(tp, ino, granule)
+		seen = append(seen, e.ino)
+		d.tearFile(tp, e.ino, granule)
 	}
-	d.Vol = map[string]*Inode{}
-	for n, ino := range d.Dur {
-		d.Vol[n] = ino
+	d.Vol = make(dirMap, len(d.Dur))
+	for i := range d.Dur {
+		d.Vol[i] = d.Dur[i]
 	}
 }
 
@@ -399,10 +449,5 @@ func (d *Disk) tearFile(tp Chooser, ino *Inode, granule int64) {
 
 // DurableNames lists the durable directory (for oracles).
 func (d *Disk) DurableNames() []string {
-	names := make([]string, 0, len(d.Dur))
-	for n := range d.Dur {
-		names = append(names, n)
-	}
-	sort.Strings(names)
-	return names
+	return d.Dur.names()
 }
